@@ -46,6 +46,7 @@ MUTATIONS = [
     ("add_path", ("a", "L1"), None, None),
     ("add_path", ("a", "L1", "L2"), "O2", None),
     ("add_links", (("c", "L2", "a"), ("a", "L1", "b")), "gen"),
+    ("add_nodes", ("b", "c"), "gen"),
 ]
 READS = list(LOOKUPS)
 NONE, ALL = "-", "*"
